@@ -139,13 +139,16 @@ def absent_keywords(db, kwlimit, g):
     if len(stored) >= 2:
         cands.append(('concat', stored[0] + stored[1]))
         cands.append(('concat-rev', stored[1] + stored[0]))
+    for w in stored[:3]:
+        cands.append(('lead-nul-stored', b'\x00' + w))          # a byte string that is not a stored keyword, one NUL away from one
+    cands.append(('lead-nul-random', b'\x00' + bytes([g.randrange(1, 256)]) + g.randbytes(3)))
     cands.append(('random', bytes([g.randrange(1, 256)]) + g.randbytes(5)))
     cands.append(('maxlen', bytes([g.randrange(1, 256)]) + g.randbytes(kwlimit - 1)))
     cands.append(('single', bytes([g.randrange(1, 256)])))
     cands.append(('empty', b''))
     out, seen = [], set(stored)
     for tag, w in cands:
-        if (tag == 'empty' or (w and w[0] != 0)) and len(w) <= kwlimit and w not in seen:
+        if (tag in ('empty', 'lead-nul-stored', 'lead-nul-random') or (w and w[0] != 0)) and len(w) <= kwlimit and w not in seen:
             seen.add(w)
             out.append((tag, w))
     return out
